@@ -9,6 +9,9 @@
 (*                                                                         *)
 (* classes: a_data (block bytes), entry (oplog entry), c_del (data hole),  *)
 (* f_pages, f_nodes, f_hdr / f_hdr2 (header slot), f_trunc / f_trunc2      *)
+(* The language does not count pages or nodes (DropWhile), so the recorder *)
+(* logs a run of f_pages or of f_nodes once: a bulk append of 32767 blocks *)
+(* flushes 65519 nodes, and a sequence that long exhausted TLC's heap.     *)
 (***************************************************************************)
 EXTENDS Naturals, Sequences
 
